@@ -2,7 +2,10 @@ package main
 
 import (
 	"fmt"
+	"go/token"
 	"strings"
+
+	"golang.org/x/tools/go/ssa"
 )
 
 func init() {
@@ -151,7 +154,10 @@ func checkC11(ctx *Ctx) *Result {
 				nSucc++
 				good, detail := true, ""
 				switch {
-				case bc == nil || len(bc.Args) != 1 || bc.Args[0].Key() != "param:"+rc.Params[1].Name():
+				case bc == nil && ptrStore >= 0 && mp.Val("bin:==(param:"+rc.Params[1].Name()+", nil)") == 1 && mp.Events[ptrStore].Val.IsConst("nil") &&
+					mp.Events[ptrStore].Base == "param:"+rc.Params[0].Name():
+					// Reconfigure(nil) decided by the method itself
+				case bc == nil || len(bc.Args) != 1 || bc.Args[0].Key() != "param:"+rc.Params[1].Name() && !isCopyOfParam(rc, bc.Args[0], rc.Params[1]):
 					good, detail = false, "a successful Reconfigure does not build the configuration from its own argument"
 				case ptrStore < 0:
 					good, detail = false, "Reconfigure returns nil without storing the configuration pointer: Reconfigure(nil) can leave the middleware configured"
@@ -180,6 +186,39 @@ func checkC11(ctx *Ctx) *Result {
 	return r
 }
 
+// isCopyOfParam: t is a local allocated in fn whose only store is `*t = *p`
+// (a private shallow copy of what the pointer parameter p points to) and
+// which is otherwise only read or passed on.
+func isCopyOfParam(fn *ssa.Function, t *Term, p *ssa.Parameter) bool {
+	if t == nil || t.Op != "alloc" {
+		return false
+	}
+	var al *ssa.Alloc
+	for _, b := range fn.Blocks {
+		for _, ins := range b.Instrs {
+			if a, ok := ins.(*ssa.Alloc); ok && strings.HasPrefix(t.Name, fn.Name()+"."+a.Name()+"/") {
+				al = a
+			}
+		}
+	}
+	if al == nil || al.Referrers() == nil {
+		return false
+	}
+	stores := 0
+	for _, ref := range *al.Referrers() {
+		st, ok := ref.(*ssa.Store)
+		if !ok || st.Addr != al {
+			continue
+		}
+		stores++
+		u, ok := st.Val.(*ssa.UnOp)
+		if !ok || u.Op != token.MUL || u.X != p {
+			return false
+		}
+	}
+	return stores == 1
+}
+
 func checkC16(ctx *Ctx) *Result {
 	r := newResult("C16")
 	r.Explanation = "Decided for every preflight request and configuration with debug mode off: on each preflight path consistent with ¬debug, either the status is the configured success status and every value written to the response has a provenance in {constant *, true, *,authorization; this request's own Origin / ACRM / ACRH values; the configured max-age (for Access-Control-Max-Age only); the Vary constant}, or the status is one constant shared by all failing paths and no Access-Control-* header is written at all (the local buffer reaches the response only through the copy on the success path)."
@@ -191,6 +230,12 @@ func checkC16(ctx *Ctx) *Result {
 	}
 	r.rule("R16.1", "debug off: failing preflights write no Access-Control-* header and share one constant status", 50)
 	r.rule("R16.2", "debug off: successful preflights name only *, true, *,authorization, request-supplied tokens and the configured max-age", 50)
+	r.rule("R16.4", "debug off: the success status goes only to preflights on which no step has its documented reason to fail (every refusal is the bare failing status, whatever the reason)", 20)
+	// "debug mode off" is the state SetDebug(false), creation and Reconfigure(nil) leave behind
+	r.share(checkC09(ctx), map[string]string{
+		"R9.1": "invariant debug ⇒ configuration pointer ≠ nil is preserved by every path of every writer",
+		"R9.2": "documented transitions of creation, SetDebug, Reconfigure(nil / non-nil / invalid): SetDebug(false) turns debug mode off",
+	}, nil)
 	failStatus := map[string]int{}
 	for _, rp := range rt.Paths {
 		// a preflight answered by the middleware, with or without a status of its own
@@ -220,6 +265,22 @@ func checkC16(ctx *Ctx) *Result {
 			}
 			r.check(good, "R16.1", desc, "", detail, 1)
 			continue
+		}
+		// R16.4: the success status is itself a verdict — it goes only to a
+		// preflight none of whose steps has its documented reason to fail
+		{
+			why := ""
+			switch {
+			case rp.Is(aPNTrue) && rp.Not(aPNA) && rp.Not(aPNANoCors):
+				why = "private-network access asked for but not enabled"
+			case rp.Not(aSafe) && rp.Not(aAnyMethod) && rp.Not(aListed):
+				why = "the method is neither safelisted nor allowed"
+			case rp.Is(aACRH) && rp.Not(aAsterisk) && (rp.Is(aNoHdrs) || rp.Not(aCheck)):
+				why = "a requested header name is not allowed"
+			case !(rp.Is(aParseOK) && (rp.Is(aContains) || allowAllPath(ctx, rp))):
+				why = "the origin is not established as allowed"
+			}
+			r.check(why == "", "R16.4", desc, "", "a debug-off preflight is answered with the success status although "+why+": the refusal is not the bare failing status", 1)
 		}
 		good, detail := true, ""
 		for _, w := range rp.Writes {
